@@ -5,6 +5,7 @@ import (
 	"context"
 	"crypto/sha256"
 	"encoding/hex"
+	"errors"
 	"fmt"
 	"os"
 	"path/filepath"
@@ -326,5 +327,108 @@ func c07Check(env *h.Env, c *c07Case) error {
 }
 
 func TestC07(t *testing.T) {
-	h.Run(t, "C07", genC07, c07Check)
+	r := h.NewRunner("C07")
+	defer r.Finish(t)
+	h.RunWith(t, r, "", genC07, c07Check)
+	if t.Failed() {
+		return
+	}
+	t.Run("unpriv", func(t *testing.T) {
+		h.ScaleChecks(1, 10, func() { h.RunWith(t, r, "unpriv", genC07Unpriv, c07UnprivCheck) })
+	})
+}
+
+// ---------------------------------------------------------------------------
+// sub-run "unpriv": the receiver runs as uid 1000 (chrooted sub-process) against
+// the reference sender: everything announced is owned by 1000, has no device
+// nodes and only user.* xattrs, directories keep u+rwx - whatever an
+// unprivileged user may create, including read-only and set-id files. The call
+// must return success and store exactly what was sent.
+
+type c07UnprivCase struct {
+	Src      *h.Tree      `json:"src"`
+	Dst      *h.Tree      `json:"dst"`
+	Script   h.SendScript `json:"script"`
+	Capacity int          `json:"capacity"`
+}
+
+func genC07Unpriv(t *rapid.T) *c07UnprivCase {
+	u := genC01Unpriv(t)
+	c := &c07UnprivCase{Src: u.Src, Dst: u.Dst, Capacity: u.Capacity}
+	c.Script.Chunk = []int{rapid.SampledFrom([]int{1, 7, 4096, 32768, 100000}).Draw(t, "chunk")}
+	c.Script.Choices = rapid.SliceOfN(rapid.IntRange(0, 5), 1, 6).Draw(t, "choices")
+	c.Script.RaceStats = rapid.Bool().Draw(t, "race")
+	c.Script.Tail = "echo"
+	return c
+}
+
+func c07UnprivCheck(env *h.Env, c *c07UnprivCase) error {
+	jail := filepath.Join(env.Scratch, "jail")
+	dest := filepath.Join(jail, "dst")
+	if err := os.MkdirAll(dest, 0o755); err != nil {
+		return h.Infra(err)
+	}
+	if c.Dst != nil {
+		if err := h.Materialise(c.Dst, dest); err != nil {
+			return h.Infra(err)
+		}
+	}
+	if err := os.Chown(dest, 1000, 1000); err != nil {
+		return h.Infra(err)
+	}
+	os.Chmod(jail, 0o755)
+	os.Chmod(env.Scratch, 0o755)
+	before, err := h.Snapshot(dest)
+	if err != nil {
+		return h.Infra(err)
+	}
+	mem := &h.MemFS{T: c.Src, LinkSizeFull: true}
+	var stats []hStat
+	for i, st := range mem.Stats() {
+		stats = append(stats, hStat{Path: h.BStr(st.Path), Mode: st.Mode, Uid: st.Uid, Gid: st.Gid, Size: st.Size, Mtime: st.ModTime, Link: h.BStr(st.Linkname), Xattrs: st.Xattrs, Seed: c.Src.Nodes[i].Seed})
+	}
+	var res c03JailResult
+	if err := runJailed(jail, "receive", 1000, c03JailArg{Dest: "/dst", Stats: stats, Mode: "normal", Script: c.Script, Capacity: c.Capacity}, &res); err != nil {
+		var crash *helperCrash
+		if errors.As(err, &crash) {
+			return fmt.Errorf("the unprivileged receiving %v", crash)
+		}
+		return h.Infra(err)
+	}
+	ro := false
+	for _, n := range c.Src.Nodes {
+		if n.Kind == h.KFile && n.Perm&0o200 == 0 && n.Size > 0 {
+			ro = true
+		}
+	}
+	env.Class("unprivileged-receiver")
+	if ro {
+		env.Class("read-only-file-with-content")
+		env.NonTrivial()
+	}
+	if res.Stuck {
+		return fmt.Errorf("unprivileged receiver (uid 1000) against a conforming sender never finished")
+	}
+	if res.RecvErr != "" {
+		return fmt.Errorf("unprivileged receiver (uid 1000) against a conforming sender failed: %s", res.RecvErr)
+	}
+	after, err := h.Snapshot(dest)
+	if err != nil {
+		return h.Infra(err)
+	}
+	o := &resyncObs{before: before, annIdx: map[string]*types.Stat{}, destStat: map[string]*types.Stat{}, may: map[string]bool{}, changed: map[string]bool{}, unchanged: map[string]bool{}}
+	o.announced = mem.Stats()
+	for _, st := range o.announced {
+		o.annIdx[st.Path] = st
+	}
+	o.classify(0)
+	for _, id := range res.Reqs {
+		if int(id) < len(o.announced) {
+			o.reqPaths = append(o.reqPaths, o.announced[id].Path)
+		}
+	}
+	if errs := convergenceErrs(after, before, c.Src, 0, o.keepOld(0)); errs.Len() > 0 {
+		return fmt.Errorf("unprivileged receiver (uid 1000): destination differs from what the reference sender announced and sent: %v", errs.Err())
+	}
+	return nil
 }
